@@ -188,6 +188,28 @@ func init() {
 		if out == nil {
 			out = []byte{}
 		}
+		// an encoder's output must not share memory with later outputs: encode a sibling value and look again
+		kept := append([]byte{}, out...)
+		outstable := true
+		if encErr == nil && ev["enc"] == "ok" {
+			guard(func() {
+				m2 := J{}
+				for k, v := range m {
+					m2[k] = v
+				}
+				if _, ok := m2["payload"]; ok {
+					m2["payload"] = []any{float64(7), float64(7), float64(7)}
+				} else {
+					m2["sig"] = []any{float64(7), float64(7), float64(7)}
+				}
+				for i := 0; i < 3; i++ {
+					_, _ = buildEncode(kind, m2)
+				}
+			})
+			outstable = bytes.Equal(kept, out)
+		}
+		ev["outstable"] = outstable
+		out = kept
 		ev["out"] = ints(out)
 		ev["stable"] = same
 		var decErr error
